@@ -106,6 +106,14 @@ class KindFlow:
         self.g = C.CFG(fn['body'])
         self.state_in = {}
         self.entry_state = dict(entry or {})
+        # kind snapshots: `const json_storage_kind kind = x.storage_kind();` - a local that is never modified and holds the kind x had
+        # at that point; tests of the local refine its own set and, while x has not been changed since, x's
+        self.snap = {}
+        mut = A.mutated_ids(fn['body'])
+        for d in A.walk_no_lambda(fn['body']):
+            if d.get('k') == 'VarDecl' and d.get('init') is not None and d.get('id') not in mut:
+                key = self.kind_call_obj(d['init'])
+                if key is not None: self.snap[d['id']] = key
         self._run()
 
     # abstract state: dict key -> frozenset ; missing key = ALL
@@ -185,6 +193,8 @@ class KindFlow:
         s = A.strip(e, casts=True)
         if s is not None and s.get('k') == 'CXXMemberCallExpr' and A.callee_name(s) == 'storage_kind':
             return obj_key(s.get('obj'))
+        if s is not None and s.get('k') == 'DeclRefExpr' and s.get('id') in getattr(self, 'snap', {}):
+            return ('kv', s.get('id'))
         return None
 
     def refine_switch(self, node, label, st):
@@ -205,6 +215,14 @@ class KindFlow:
         ast = node.ast
         if ast is None or not isinstance(ast, dict): return st
         changed = None
+        if ast.get('k') == 'DeclStmt':
+            for d in ast.get('decls') or []:
+                if d.get('id') in self.snap:
+                    xkey = self.snap[d['id']]
+                    if changed is None: changed = dict(st)
+                    changed[('kv', d['id'])] = self.get(st, xkey)
+                    changed['eq'] = changed.get('eq', frozenset()) | {frozenset((('kv', d['id']), xkey))}
+            if changed is not None: st = changed
         for x in A.walk_no_lambda(ast):
             k = x.get('k')
             if k == 'CXXMemberCallExpr':
@@ -234,6 +252,7 @@ class KindFlow:
                 if key is not None:
                     if changed is None: changed = dict(st)
                     changed[key] = self.m.ALL
+                    self._drop_eq(changed, key)
             elif k in ('CallExpr', 'CXXMemberCallExpr', 'CXXConstructExpr'):
                 pass
             # whole-object memcpy into this / placement new: kind becomes unknown
